@@ -625,16 +625,7 @@ func c09Operators(c *lib.Ctx) {
 		if r.Intn(4) > 0 {
 			e.retain([]uint64{jc.id})
 		}
-		for _, o := range e.ops {
-			if db := o.node.Op.VerifDB(); db != nil {
-				d := make(chan struct{})
-				go func() { db.WaitOnTasks(); close(d) }()
-				select {
-				case <-d:
-				case <-time.After(ophar.Watchdog):
-				}
-			}
-		}
+		lib.DKVIdle(ophar.Watchdog)
 		lib.GCSettle()
 		e.checkFiles("after retention update and forced GC")
 		e.touchAll()
